@@ -17,6 +17,7 @@ import Wormhole.Tie.Messages
 import Wormhole.Tie.Claim
 import Wormhole.Tie.Release
 import Wormhole.Tie.MailboxClose
+import Wormhole.Tie.UsageSql
 
 set_option linter.unusedSimpArgs false
 
@@ -309,6 +310,56 @@ theorem e_close_delete_mailbox (s : Sys) (mb : String) :
   exact (close_delete_mailbox s.db mb).pos
     (by simp [bindArgs, evalArg, Mailbox_close__delete_mailboxes_0, List.lookup, SV.toCell])
 
+/-! ### the usage database -/
+
+/-- `UsageWriteIs` on positional cells -/
+structure UsageWritePos (st : Stmt) (ps : List Cell) (u u' : Usage) : Prop where
+  isWrite : st.kind ≠ .select
+  onDb : st.db = .usage
+  nameplates : u'.tables "nameplates" = usageAfter st ps u "nameplates"
+  mailboxes : u'.tables "mailboxes" = usageAfter st ps u "mailboxes"
+  current : u'.tables "current" = usageAfter st ps u "current"
+  clients : u'.tables "client_versions" = usageAfter st ps u "client_versions"
+
+theorem UsageWriteIs.pos {st : Stmt} {env : List (String × Cell)} {u u' : Usage} (h : UsageWriteIs st env u u')
+    {ps : List Cell} (hb : bindArgs st env = ps) : UsageWritePos st ps u u' := by
+  subst hb
+  exact ⟨h.isWrite, h.onDb, h.nameplates, h.mailboxes, h.current, h.clients⟩
+
+structure EntryUWrite (name : String) (st : Stmt) (args : List SV) (s : Sys) : Prop where
+  named : GenSql.all.lookup name = some st
+  nargs : st.args.length = args.length
+  sem : ∃ u', stmtSem s name args = .ok { s with udb := u' } .none ∧ UsageWritePos st (args.map SV.toCell) s.udb u'
+
+def waitSV : Option Time → SV
+  | none => .none
+  | some w => .int w
+
+theorem e_store_nameplate (s : Sys) (app : String) (started total : Time) (waiting : Option Time) (result : String) :
+    EntryUWrite "AppNamespace__summarize_nameplate_and_store__insert_nameplates_0"
+      AppNamespace__summarize_nameplate_and_store__insert_nameplates_0
+      [.str app, .int started, .int total, waitSV waiting, .str result] s := by
+  refine ⟨by simp [GenSql.all, List.lookup], rfl,
+    { s.udb with nameplates := s.udb.nameplates ++ [⟨app, started, waiting, total, result⟩] },
+    by cases waiting <;> simp [stmtSem, Sys.modUdb, waitSV], ?_⟩
+  exact (store_nameplate_usage_insert s.udb app started waiting total result).pos
+    (by cases waiting <;>
+        simp [bindArgs, evalArg, AppNamespace__summarize_nameplate_and_store__insert_nameplates_0, List.lookup, SV.toCell,
+          waitSV, ofOptTime])
+
+theorem e_store_mailbox (s : Sys) (app : String) (forNp : Bool) (started total : Time) (waiting : Option Time)
+    (result : String) :
+    EntryUWrite "AppNamespace__summarize_mailbox_and_store__insert_mailboxes_0"
+      AppNamespace__summarize_mailbox_and_store__insert_mailboxes_0
+      [.str app, .bool forNp, .int started, .int total, waitSV waiting, .str result] s := by
+  refine ⟨by simp [GenSql.all, List.lookup], rfl,
+    { s.udb with mailboxes := s.udb.mailboxes ++ [⟨app, forNp, started, total, waiting, result⟩] },
+    by cases waiting <;> simp [stmtSem, Sys.modUdb, waitSV], ?_⟩
+  exact (store_mailbox_usage_insert s.udb app forNp started total waiting result).pos
+    (by cases waiting <;>
+        simp [bindArgs, evalArg, AppNamespace__summarize_mailbox_and_store__insert_mailboxes_0, List.lookup, SV.toCell,
+          waitSV, ofOptTime])
+
 /-! ### coverage -/
 
 /-- the statement names that have an entry theorem above -/
@@ -325,6 +376,8 @@ def tiedNames : List String := [
   "Mailbox_close__select_mailboxes_0", "Mailbox_close__select_mailbox_sides_0", "Mailbox_close__update_mailbox_sides_0",
   "Mailbox_close__select_mailbox_sides_1", "Mailbox_close__select_nameplates_0", "Mailbox_close__select_nameplate_sides_0",
   "Mailbox_close__delete_nameplate_sides_0", "Mailbox_close__delete_nameplates_0", "Mailbox_close__delete_messages_0",
-  "Mailbox_close__delete_mailbox_sides_0", "Mailbox_close__delete_mailboxes_0"]
+  "Mailbox_close__delete_mailbox_sides_0", "Mailbox_close__delete_mailboxes_0",
+  "AppNamespace__summarize_nameplate_and_store__insert_nameplates_0",
+  "AppNamespace__summarize_mailbox_and_store__insert_mailboxes_0"]
 
 end Wormhole.Tie
